@@ -34,8 +34,19 @@ STREAM = ('"dart.operation"({i}, {o}) <{{patterns = [affine_map<(d0) -> (d0)>, a
           "^bb0(%sx{t} : !dart.stream<i32>, %sy{t} : !dart.stream<i32>):\n  dart.yield %sx{t} : !dart.stream<i32>\n}}) {{verif.id = {t} : i32}} : (memref<8xi32>, memref<8xi32>) -> ()")
 
 
+XDMA = ('"dart.operation"({i}, {i}, {o}) <{{patterns = [affine_map<(d0) -> (d0)>, affine_map<(d0) -> (d0)>, affine_map<(d0) -> (d0)>], accelerator = "snax_xdma", operandSegmentSizes = array<i32: 2, 1>}}> ({{\n'
+        "^bb0(%xa{t} : !dart.stream<i32>, %xb{t} : !dart.stream<i32>, %xc{t} : !dart.stream<i32>):\n"
+        '  %xg{t} = "dart.generic"(%xa{t}, %xb{t}) <{{library_call = "snax_xdma"}}> ({{\n  ^bb1(%xe{t} : i32, %xf{t} : i32, %xo{t} : i32):\n    {kern}\n    dart.yield %xk{t} : i32\n'
+        "  }}) : (!dart.stream<i32>, !dart.stream<i32>) -> !dart.stream<i32>\n  dart.yield %xg{t} : !dart.stream<i32>\n"
+        "}}) {{verif.id = {t} : i32}} : (memref<8xi32>, memref<8xi32>, memref<8xi32>) -> ()")
+
+
 def leaf_emit(leaf, tag, ivs):
     k = leaf[0]
+    if k in ("X", "Y"):
+        # snax_xdma streaming op: X = a kernel one of the DMA extensions provides (data-mover core), Y = another kernel (no extension: not dispatched)
+        kern = f"%xk{tag} = kernel.add %xe{tag}, %xf{tag} : i32, i32 -> i32" if k == "X" else f"%xk{tag} = kernel.mul %xe{tag}, %xf{tag} : i32, i32 -> i32"
+        return XDMA.format(i="%" + leaf[1], o="%" + leaf[2], t=tag, kern=kern).split("\n")
     if k == "D":
         return [f'"memref.copy"(%{leaf[1]}, %{leaf[2]}) {{verif.id = {tag} : i32}} : (memref<8xi32>, memref<8xi32>) -> ()']
     if k == "C":
@@ -58,6 +69,9 @@ def space(tier):
     # a slice with the dart streaming-region form of a compute op
     g2 = ST.Grammar([("D", "a", "b"), ("S", "b", "c"), ("O",)], controls=("FOR", "IF"), max_depth=2)
     progs += [p for p in g2.programs(3) if ST.count(p, lambda s: s[0] == "S") >= 1]
+    # a slice with snax_xdma streaming ops
+    g4 = ST.Grammar([("X", "a", "b"), ("Y", "a", "b"), ("C", "b", "c"), ("O",)], controls=("FOR", "IF"), max_depth=2)
+    progs += [p for p in g4.programs(3) if ST.count(p, lambda s: s[0] in ("X", "Y")) >= 1]
     cases = [(p, n, None) for p in progs for n in b["cores"]]
     # two-block functions (cf.br): every split point of every program with <= 4 top-level-visible nodes and >= 2 top-level statements
     g3 = ST.Grammar(leaves, controls=("FOR", "IF"), max_depth=1)
@@ -97,8 +111,12 @@ def run(mod, fname, args, core):
     def h_event(it, op):
         name = op.name if op.name != "builtin.unregistered" else op.op_name.data
         ident = op.attributes.get("verif.id")
-        vals = tuple(it.get(o) for o in op.operands if KIND[name] == "O")
-        ev.append((KIND[name], ident.value.data if ident is not None else None, vals))
+        kind = KIND[name]
+        if name == "dart.operation" and op.accelerator.data == "snax_xdma":
+            kop = op.body.block.first_op.body.block.first_op
+            kind = "D" if kop.name == "kernel.add" else "O"
+        vals = tuple(it.get(o) for o in op.operands if kind == "O" and name == "test.op")
+        ev.append((kind, ident.value.data if ident is not None else None, vals))
         return [0 for _ in op.results]
 
     def h_call(it, op):
@@ -142,6 +160,7 @@ def allowed(kind, core, n):
 def evaluate(case, only=None) -> CaseResult:
     prog, n, split = case
     r = CaseResult()
+    common.ensure_xdma()
     em = ST.Emitter(leaf_emit, BUFS)
     text = em.emit(prog, split_at=split if isinstance(split, int) else None)
     if isinstance(split, str):
